@@ -136,6 +136,7 @@ def main():
            "Definition gen_secret_types : list (bytes * bytes * bytes) := [%s]." % "; ".join("(%s, %s, %s)" % (cs(n), cs(d), cs(s_)) for n, _, d, s_ in types), "",
            "Definition gen_secret_debug_body : bytes := %s." % cs(si.get("fmt::Debug", "Unparsed")),
            "Definition gen_secret_serialize_body : bytes := %s." % cs(si.get("Serialize", "Unparsed")),
+           "Definition gen_secret_deserialize_body : bytes := %s." % cs(si.get("<'de> Deserialize<'de>", "Unparsed")),
            "Definition gen_secret_placeholder : bytes := %s." % cs(si.get("PLACEHOLDER", "Unparsed")),
            "Definition gen_secret_derives : bytes := %s." % cs(si.get("derives", "Unparsed"))]
     vlib.write_if_changed(os.path.join(vlib.COQ, "gen", "SecretSites.v"), "\n".join(out) + "\n")
